@@ -33,7 +33,9 @@ def fxHandlerClose : List String :=
 def fxHandlerCloseWithErrors : List String :=
   ["if[h.closed]{", "return", "}", "if{", "close(h.fp)", "}", "exists(h.path)", "if[h.openType == ForCreate && Exists(h.path)]{", "remove(h.path)", "}", "cf_close(h.tempFile)", "cf_close(h.lockFile)", "cf_close(h.rlockFile)"]
 
+/-- reviewed 2026-09-24 after fix 305bbf1: the leading `if{ return }` is the refusal to commit under a cancelled
+    context; nothing is written before it -/
 def fxTransactionCommit : List String :=
-  ["if{", "loop{", "truncate", "if{", "return", "}", "if{", "return", "}", "encode", "if{", "return", "}", "if{", "write", "if{", "return", "}", "}", "}", "}", "if{", "loop{", "truncate", "if{", "return", "}", "if{", "return", "}", "encode", "if{", "return", "}", "if{", "write", "if{", "return", "}", "}", "}", "}", "loop{", "handler_commit", "if{", "return", "}", "}", "loop{", "handler_commit", "if{", "return", "}", "}", "if{", "return", "}"]
+  ["if{", "return", "}", "if{", "loop{", "truncate", "if{", "return", "}", "if{", "return", "}", "encode", "if{", "return", "}", "if{", "write", "if{", "return", "}", "}", "}", "}", "if{", "loop{", "truncate", "if{", "return", "}", "if{", "return", "}", "encode", "if{", "return", "}", "if{", "write", "if{", "return", "}", "}", "}", "}", "loop{", "handler_commit", "if{", "return", "}", "}", "loop{", "handler_commit", "if{", "return", "}", "}", "if{", "return", "}"]
 
 end Csvq.Ref
